@@ -243,7 +243,7 @@ fn dispatch(a: &Args, replay: Option<(Vec<String>, String)>) -> ! {
                 let mut s2 = ksys::make::<$t>(a);
                 s2.hint = a.num("hint2", s1.hint as u64) as usize;
                 let symmetric = s2.hint == s1.hint;
-                let p = pair::PairSys { a: s1, b: s2, symmetric };
+                let p = pair::PairSys { a: s1, b: s2, symmetric, deep_queries: a.num("pair-deep-queries", 0) > 0 };
                 match &replay {
                     None => run_bfs(p, a),
                     Some((h, sig)) => run_replay(p, a, h, sig),
@@ -299,7 +299,7 @@ fn msys_dispatch(a: &Args, sys: &str, replay: Option<(Vec<String>, String)>) -> 
                 let hint2 = a.num("hint2", hint as u64) as usize;
                 let s1: MSys<$t> = MSys { n, hint, mode, f: f.clone(), prop, inj_budget: inj, _p: Default::default() };
                 let s2: MSys<$t> = MSys { n, hint: hint2, mode, f: f.clone(), prop, inj_budget: inj, _p: Default::default() };
-                let p = pair::PairSys { a: s1, b: s2, symmetric: hint2 == hint };
+                let p = pair::PairSys { a: s1, b: s2, symmetric: hint2 == hint, deep_queries: a.num("pair-deep-queries", 0) > 0 };
                 match &replay {
                     None => run_bfs(p, a),
                     Some((h, sig)) => run_replay(p, a, h, sig),
